@@ -54,7 +54,10 @@ def simplify(clause):
             return clause
     elif isinstance(clause, ast.BoolOp) and isinstance(clause.op, ast.Or):
         if len(clause.values) == 1:
-            result = ast.UnaryOp(op=ast.Not(), operand=clause.values[0])
+            if getattr(clause, 'explicit', False):
+                result = clause.values[0]  # the jump sense is already in the operand
+            else:
+                result = ast.UnaryOp(op=ast.Not(), operand=clause.values[0])
         else:
             return clause
     else:
@@ -157,6 +160,7 @@ class Decompiler(object):
         decompiler.instructions_map = {}
         decompiler.kw_names = None
         decompiler.or_jumps = set()
+        decompiler.value_jumps = set()
         decompiler.get_instructions()
         decompiler.analyze_jumps()
         decompiler.decompile()
@@ -287,6 +291,11 @@ class Decompiler(object):
                         decompiler.jump_map[old_endpos].remove(prev[0])
                         decompiler.jump_map[endpos].append(prev[0])
                 if not merge:
+                    if opname in ('POP_JUMP_IF_TRUE', 'POP_JUMP_IF_FALSE') and decompiler.instructions \
+                            and decompiler.instructions[-1][2:] == ('COPY', [1]):
+                        # py 3.12: `COPY 1; POP_JUMP_IF_x L; POP_TOP; <rhs>; L:` is the value of `lhs and/or rhs`,
+                        # not a jump of the condition
+                        decompiler.value_jumps.add(decompiler.pos)
                     if 'JUMP' in opname:
                         endpos = arg[0]
                         if endpos < decompiler.pos:
@@ -313,7 +322,7 @@ class Decompiler(object):
             pos, next_pos, opname, arg = decompiler.instructions[i]
             if pos in decompiler.jump_map:
                 for jump_start_pos in decompiler.jump_map[pos]:
-                    if jump_start_pos > pos:
+                    if jump_start_pos > pos or jump_start_pos in decompiler.value_jumps:
                         continue
                     for or_jump_start_pos in decompiler.or_jumps:
                         if pos > or_jump_start_pos > jump_start_pos:
@@ -712,10 +721,12 @@ class Decompiler(object):
 
     def conditional_jump_new(decompiler, endpos, if_true):
         expr = decompiler.stack.pop()
-        if decompiler.pos >= decompiler.conditions_end:
+        explicit = False
+        if decompiler.pos >= decompiler.conditions_end or decompiler.pos in decompiler.value_jumps:
             clausetype = ast.Or if if_true else ast.And
         elif decompiler.pos in decompiler.or_jumps:
             clausetype = ast.Or
+            explicit = True
             if not if_true:
                 expr = ast.UnaryOp(op=ast.Not(), operand=expr)
         else:
@@ -729,6 +740,7 @@ class Decompiler(object):
 
         expr = decompiler.stack.pop()
         clause = ast.BoolOp(op=clausetype(), values=[expr])
+        clause.explicit = explicit
         clause.endpos = endpos
         decompiler.targets.setdefault(endpos, clause)
         return clause
@@ -775,8 +787,9 @@ class Decompiler(object):
             limit = decompiler.targets.pop(pos, None)
         top = decompiler.stack.pop()
         while True:
+            at_limit = top is limit
             top = simplify(top)
-            if top is limit:
+            if at_limit or top is limit:
                 break
             if isinstance(top, ast.comprehension):
                 break
